@@ -64,7 +64,12 @@ Conforms(T, e) ==
                             IN Rng(e.res) = keep /\ Len(e.res) = Cardinality(keep)
     [] OTHER -> FALSE
 
-Verdict(T, e) == IF e.err # "" THEN "error" ELSE IF Conforms(T, e) THEN "ok" ELSE "answer"
+(* "unresolved": the real code could not find a taxid (answer -1) that the taxonomy resolves *)
+Verdict(T, e) ==
+  IF e.err # "" THEN "error"
+  ELSE IF Conforms(T, e) THEN "ok"
+  ELSE IF e.res = <<-1>> /\ \A i \in 1..Len(e.a) : Resolve(T, e.a[i]) # 0 THEN "unresolved"
+  ELSE "answer"
 
 LoadVerdict(e) ==
   LET n == Len(e.parent) IN
